@@ -642,7 +642,7 @@ fn main() {
     api_case(&mut model, &mut rep, &mut r0, false, 0, 40);
     api_case(&mut model, &mut rep, &mut r0, false, 1, 60);
     api_case(&mut model, &mut rep, &mut r0, true, 14, 400);
-    let na = args.n(10, 300);
+    let na = args.n(10, 150);
     for i in 0..na {
         let mut r = rng.fork();
         let n = if i % 5 == 4 { r.range(100, 130) as usize } else { r.range(2, 16) as usize };
@@ -650,7 +650,7 @@ fn main() {
     }
     probe_f64_collapse(&mut rep);
     probe_in_list_order(&mut rep);
-    let nt = args.n(500, 12000);
+    let nt = args.n(500, 6000);
     for i in 0..nt {
         let mut r = rng.fork();
         let n = match i % 25 {
